@@ -22,7 +22,7 @@ from . import hist
 from .gitsim import Sim, session_hash
 from .hist import TOOL, note_as_sets
 
-GEN_FILES = ["GenProfile", "GenInternalGit"]
+GEN_FILES = ["GenProfile", "GenInternalGit", "GenStateProbes"]
 DRIVERS = ["profile"]
 PROPERTY_FILES = ["C12", "C12_quote"]
 THEOREMS = ["C12_strip_safe", "C12_pins_present", "C12_profile_pins", "C12_config_independent", "C12_drop_complete",
@@ -30,7 +30,7 @@ THEOREMS = ["C12_strip_safe", "C12_pins_present", "C12_profile_pins", "C12_confi
             "C12_pin_not_shadowed", "C12_profile_pins_all_args_refuted", "C12_inventory_pinned",
             "C12_global_args_normalised", "C12_global_args_end_in_root", "C12_no_pager", "C12_hooks_prefix_keeps_subcommand",
             "C12_ex_canonical_patch", "C12_ex_config_matters_unpinned", "C12_ex_pinned", "C12_ex_hyps", "C12_ex_global_mix",
-            "C12_base_dir_cwd_only_when_needed", "C12_ex_base_dir", "C12_header_path_decodes", "C12_header_path_quotepath_independent", "C12_ex_mixed_name"]
+            "C12_base_dir_cwd_only_when_needed", "C12_ex_base_dir", "C12_state_probes_per_worktree", "C12_header_path_decodes", "C12_header_path_quotepath_independent", "C12_ex_mixed_name"]
 CLAIM = {
     "text": "Partial proof. Machine-checked (Coq 8.16.1, closed) over an executable Gallina model of "
             "first_git_subcommand_index, strip_profile_conflicts, profile_options, args_with_internal_git_profile, "
@@ -45,7 +45,7 @@ CLAIM = {
             "algorithm) (C12_drop_complete); tokens without a leading dash are tame (C12_nodash_tame). The tameness hypothesis "
             "is necessary (C12_*_refuted), so the unrestricted statement is false (C12_profile_pins_all_args_refuted); no "
             "internal caller passes such options. Every one of the internal git invocation templates found by the whole-tree "
-            "scan that is parsed fixes the components its parser needs (status with an explicit --untracked-files), up to 7 listed "
+            "scan that is parsed fixes the components its parser needs (status with an explicit --untracked-files, blame with --no-textconv, grep with --no-color), up to 6 listed "
             "exceptions, each needed (C12_inventory_pinned). Global args of every shape are normalised so that a well-formed vector "
             "ends in the repository root (C12_global_args_normalised, C12_global_args_end_in_root). The end-to-end statement (notes "
             "and blame equal the baseline's under every configuration and context) is decided by the metamorphic oracle on the real "
@@ -90,6 +90,7 @@ ASSUMPTIONS = [
 GARBAGE = "#!/bin/sh\necho 'GARBAGE +++ b/zzz'\necho '@@ -0,0 +1,99 @@ garbage'\necho '+garbage line'\nexit 0\n"
 UPPER = "#!/bin/sh\ntr 'a-z' 'A-Z' < \"$1\"\n"
 PAGER = "#!/bin/sh\necho 'PAGER BANNER'\ncat\necho 'PAGER FOOTER'\n"
+HEADER = "#!/bin/sh\necho 'CONVERTED BY A TEXTCONV DRIVER'\ncat \"$1\"\n"
 
 
 def tool(name):
@@ -153,6 +154,15 @@ SETTINGS = {
                                ("status", "showStash", "true"), ("status", "aheadBehind", "false")]},
     "status_untracked_all": {"cfg": [("status", "showUntrackedFiles", "all")]},
     "status_untracked_no": {"cfg": [("status", "showUntrackedFiles", "no")]},                  # formerly known class C12-K3
+    # --- a textconv driver that RENUMBERS lines (prints a header first): matters to every line-oriented reader, blame included
+    "textconv_header": {"cfg": [("diff \"c12drv\"", "textconv", tool("header.sh")), ("core", "attributesFile", tool("attributes"))]},
+    # --- status.showStash prints a `# stash <n>` header in porcelain v2 when a stash entry exists (needs_stash: one is created)
+    "status_showstash": {"cfg": [("status", "showStash", "true")], "needs_stash": True},
+    # --- grep display (the prompt lookup greps refs/notes/ai)
+    "grep_display": {"cfg": [("color", "grep", "always"), ("grep", "lineNumber", "true"), ("grep", "column", "true"),
+                             ("grep", "patternType", "perl"), ("grep", "fullName", "true")]},
+    # --- blame.ignoreRevsFile: revisions are appended to the file by the flow scenario
+    "blame_ignorerevs": {"cfg": [("blame", "ignoreRevsFile", tool("ignore-revs")), ("blame", "markIgnoredLines", "true")]},
     # --- commit display
     "commit_display": {"cfg": [("commit", "verbose", "true"), ("commit", "status", "false")]},
 }
@@ -203,13 +213,14 @@ class CSim(Sim):
         self.where = where or {}
         self.tools = os.path.join(self.base, "tools")
         os.makedirs(self.tools, exist_ok=True)
-        for fn, body in (("garbage.sh", GARBAGE), ("upper.sh", UPPER), ("pager.sh", PAGER)):
+        for fn, body in (("garbage.sh", GARBAGE), ("upper.sh", UPPER), ("pager.sh", PAGER), ("header.sh", HEADER)):
             p = os.path.join(self.tools, fn)
             with open(p, "w") as f:
                 f.write(body)
             os.chmod(p, 0o755)
         self._write(os.path.join(self.tools, "attributes"), "* diff=c12drv\n")
         self._write(os.path.join(self.tools, "orderfile"), "*.py\n*.rs\nz*\n")
+        self._write(os.path.join(self.tools, "ignore-revs"), "")
         self.extra_env = {}
         self.repo_cfg = []
         home_lines = []
@@ -243,6 +254,14 @@ class CSim(Sim):
             wt = os.path.join(self.base, "wt")
             self.realgit("worktree", "add", "-q", "-b", "c12wt", wt)
             self.repo = wt
+        if script.get("base"):
+            # one stash entry in every run (status.showStash then has something to announce)
+            first = sorted(script["base"])[0]
+            keep = self.read(first)
+            self.write(first, (keep or "") + "stashed by a person\n")
+            self.realgit("stash", "push", "-q")
+            if self.read(first) != keep:
+                self.write(first, keep or "")
         dirs = sorted({os.path.dirname(p) for p in script["base"] if os.path.dirname(p)})
         self.subdir = dirs[0] if dirs else "zz ctx dir"
         os.makedirs(os.path.join(self.repo, self.subdir), exist_ok=True)
@@ -1272,6 +1291,166 @@ def option_after_dd(argv, template_opts=()):
             or re.fullmatch(r"-U\d+", t)]
 
 
+# ====================================================================== rewrite flows x display / lookup settings
+FLOW_CONFIGS = {"default": [], "color_ui": ["color_ui"], "grep_display": ["grep_display"], "status_showstash": ["status_showstash"],
+                "textconv_header": ["textconv_header"], "blame_ignorerevs": ["blame_ignorerevs"],
+                "all": ["color_ui", "grep_display", "status_showstash", "textconv_header", "blame_ignorerevs", "quotepath_off"]}
+
+
+def _full_obs(sim, paths):
+    """note (attestations AND the prompt records it carries), blame --json (lines and prompt records), stats"""
+    h = sim.head()
+    n = sim.note(h)
+    ob = {"note": None if n is None else hist.jsonable(note_as_sets(n)), "note_prompts": None if n is None else sorted(n["prompts"]),
+          "blame": {}, "stats": None}
+    for p in paths:
+        rc, out, _ = sim.gitai("blame", "--json", "--no-ignore-revs-file", p)
+        try:
+            o = json.loads(out)
+            ob["blame"][p] = {"lines": o.get("lines"), "prompts": sorted(o.get("prompts", {}))}
+        except Exception:
+            ob["blame"][p] = {"rc": rc}
+    rc, so, _ = sim.gitai("stats", h, "--json")
+    try:
+        ob["stats"] = json.loads(so) if rc == 0 else {"rc": rc}
+    except Exception:
+        ob["stats"] = {"unparseable": so[:200]}
+    return ob
+
+
+def flow_history(args):
+    """commit, a person's re-indent commit (listed in blame.ignoreRevsFile), amend, reset --soft + recommit (the prompt record
+    has to be found again in the notes history), with a stash entry present throughout"""
+    base, cfgname = args
+    sim = CSim(base, "fl" + cfgname, settings=FLOW_CONFIGS[cfgname])
+    try:
+        files = {"f.txt": "l1\nl2\nl3\n", "sub/g.txt": "g1\ng2\n"}
+        sim.init(files)
+        sim.setup_context({"base": files})
+        obs = []
+        sim.checkpoint_human(["f.txt"])
+        sim.write("f.txt", "l1\nx = 1\ny = 2\nl2\nl3\n")
+        sim.checkpoint_ai("s1", ["f.txt"], tool=TOOL)
+        sim.checkpoint_human(["sub/g.txt"])
+        sim.write("sub/g.txt", "g1\nagent g\ng2\n")
+        sim.checkpoint_ai("s2", ["sub/g.txt"], tool=TOOL)
+        sim.realgit("add", "-A")
+        rc, _, _ = sim.git("commit", "-q", "-m", "agent work")
+        obs.append(dict(_full_obs(sim, sorted(files)), step="commit", rc=rc))
+        sim.write("f.txt", "l1\n    x = 1\ny = 2\nl2\nl3\n")            # a person re-indents an agent line
+        sim.realgit("add", "-A")
+        sim.git("commit", "-q", "-m", "reformat")
+        with open(os.path.join(sim.tools, "ignore-revs"), "a") as f:
+            f.write(sim.head() + "\n")
+        sim.write("f.txt", "l1\n    x = 1\ny = 2\nl2\nl3\nby a person\n")
+        sim.realgit("add", "-A")
+        rc, _, _ = sim.git("commit", "-q", "--amend", "-m", "reformat, amended")
+        obs.append(dict(_full_obs(sim, sorted(files)), step="amend", rc=rc))
+        sim.git("reset", "--soft", "HEAD~2")
+        rc, _, _ = sim.git("commit", "-q", "-m", "everything again")
+        obs.append(dict(_full_obs(sim, sorted(files)), step="reset --soft + commit", rc=rc))
+        return {"cfg": cfgname, "obs": obs, "log": sim.log[-60:]}
+    finally:
+        shutil.rmtree(sim.base, ignore_errors=True)
+
+
+def witness_k5(base):
+    """C12-K5: `git checkout -- <file>` started in a subdirectory: the hook compares the pathspec as typed with root-relative
+    names, the discarded agent edit stays in the working log, and a person retyping the same line is recorded as the agent"""
+    res = {}
+    for nm, in_sub in (("root", False), ("subdir", True)):
+        sim = CSim(base, "k5" + nm)
+        try:
+            files = {"sub/f.txt": "l1\nl2\n"}
+            sim.init(files)
+            sim.setup_context({"base": files})
+            cwd = os.path.join(sim.repo, "sub") if in_sub else sim.repo
+            sim.checkpoint_human(["sub/f.txt"])
+            sim.write("sub/f.txt", "l1\nsame words\nl2\n")
+            sim.checkpoint_ai("s1", ["sub/f.txt"], tool=TOOL)
+            Sim.git(sim, "checkout", "--", os.path.relpath(os.path.join(sim.repo, "sub/f.txt"), cwd), cwd=cwd)
+            sim.write("sub/f.txt", "l1\nsame words\nl2\n")                  # typed by a person after discarding the agent's edit
+            sim.realgit("add", "-A")
+            Sim.git(sim, "commit", "-q", "-m", "by hand", cwd=cwd)
+            ob = _full_obs(sim, ["sub/f.txt"])
+            res[nm] = {k: ob[k] for k in ("note", "note_prompts", "blame")}
+        finally:
+            shutil.rmtree(sim.base, ignore_errors=True)
+    return res["root"] != res["subdir"], res
+
+
+# ====================================================================== sequencer flows x main / linked work tree
+SEQ_WHERE = ["main", "linked"]
+
+
+def seq_history(args):
+    """`git cherry-pick A B C` with a conflict at B, resolved and concluded with a plain `git commit`, then `--continue`;
+    then `git rebase` with a conflict and `--continue` — the same commands in the main work tree and in a linked one"""
+    base, where = args
+    sim = CSim(base, "seq" + where)
+    try:
+        def lines(p, n=5):
+            return [f"{p}{i}" for i in range(1, n + 1)]
+
+        def text(ls):
+            return "".join(l + "\n" for l in ls)
+        files = {"a.txt": text(lines("a")), "b.txt": text(lines("b")), "c.txt": text(lines("c"))}
+        sim.init(files)
+        sim.setup_context({"base": files})
+
+        def agent(path, new_text, session):
+            sim.checkpoint_human([path])
+            sim.write(path, new_text)
+            sim.checkpoint_ai(session, [path], tool=TOOL)
+            sim.realgit("add", "-A")
+            sim.git("commit", "-q", "-m", f"agent {session} {path}")
+            return sim.head()
+        sim.realgit("checkout", "-q", "-b", "feature")
+        A = agent("a.txt", text(["a1", "ai A"] + lines("a")[1:]), "s1")
+        B = agent("b.txt", text(["b1", "b2", "ai B", "b4", "b5"]), "s2")
+        Cc = agent("c.txt", text(lines("c") + ["ai C"]), "s1")
+        sim.realgit("checkout", "-q", "-b", "topic", "main")
+        agent("a.txt", text(lines("a") + ["ai T1"]), "s2")
+        agent("b.txt", text(["b1", "b2", "ai T2", "b4", "b5"]), "s1")
+        sim.realgit("checkout", "-q", "main")
+        sim.write("b.txt", text(["b1", "b2", "b3 changed on main", "b4", "b5"]))
+        sim.realgit("add", "-A")
+        sim.git("commit", "-q", "-m", "main moves")
+        if where == "linked":
+            wt = os.path.join(sim.base, "wt")
+            sim.realgit("worktree", "add", "-q", "-b", "target", wt, "main")
+            sim.repo = wt
+        else:
+            sim.realgit("checkout", "-q", "-b", "target", "main")
+        paths = ["a.txt", "b.txt", "c.txt"]
+        obs = []
+        rc1, _, _ = sim.git("cherry-pick", A, B, Cc)                                   # stops at B
+        sim.write("b.txt", text(["b1", "b2", "ai B", "b4", "b5"]))
+        sim.realgit("add", "b.txt")
+        rc2, _, _ = sim.git("commit", "-q", "--no-edit")                               # concludes B: only <gitdir>/sequencer is left
+        rc3, _, err3 = sim.git("cherry-pick", "--continue")                            # picks C
+        heads = sim.realgit("rev-list", "-3", "HEAD")[1].split()
+        notes = []
+        for h in heads:
+            n = sim.note(h)
+            notes.append(None if n is None else [hist.jsonable(note_as_sets(n)), sorted(n["prompts"])])
+        obs.append(dict(_full_obs(sim, paths), step="cherry-pick A B C / commit / --continue", rc=[rc1 != 0, rc2, rc3], notes=notes))
+        sim.git("checkout", "-q", "topic")
+        rc1, _, _ = sim.git("rebase", "target")                                        # stops at the second commit
+        sim.write("b.txt", text(["b1", "b2", "ai T2", "b4", "b5"]))
+        sim.realgit("add", "b.txt")
+        rc2, _, _ = sim.git("rebase", "--continue")
+        heads = sim.realgit("rev-list", "-2", "HEAD")[1].split()
+        notes = []
+        for h in heads:
+            n = sim.note(h)
+            notes.append(None if n is None else [hist.jsonable(note_as_sets(n)), sorted(n["prompts"])])
+        obs.append(dict(_full_obs(sim, paths), step="rebase / --continue", rc=[rc1 != 0, rc2], notes=notes))
+        return {"where": where, "obs": obs, "log": sim.log[-50:]}
+    finally:
+        shutil.rmtree(sim.base, ignore_errors=True)
+
+
 # ====================================================================== executed-argv monitor
 LAST_DIFFS = []
 
@@ -1353,6 +1532,45 @@ def run(ctx):
                                f"files {files[:4]}",
                                {"kind": "quotepath-matrix", "config": q["cfg"], "step": a["step"], "files": files,
                                 "default": {f: a[f] for f in what}, "variant": {f: b[f] for f in what}, "commands": q["log"]}))
+    # ---- rewrite flows (amend, reset --soft + recommit) x display / lookup settings, with a stash entry present
+    fres = C.parallel_map(flow_history, [(ctx.scratch, c) for c in FLOW_CONFIGS])
+    fref = next((q for q in fres if q.get("cfg") == "default"), None)
+    for q in fres:
+        if "error" in q:
+            violations.append(("engine error (flow history): " + q["error"][-300:], q))
+        elif fref is not None and q["obs"] != fref["obs"]:
+            k = next(i for i, (a, b) in enumerate(zip(fref["obs"], q["obs"])) if a != b)
+            a, b = fref["obs"][k], q["obs"][k]
+            what = [f for f in ("rc", "note", "note_prompts", "blame", "stats") if a[f] != b[f]]
+            violations.append((f"{', '.join(what)} after `{a['step']}` differ between the default configuration and the settings "
+                               f"{FLOW_CONFIGS[q['cfg']]}: {json.dumps({f: a[f] for f in what if f != 'stats'}, sort_keys=True)[:260]} vs "
+                               f"{json.dumps({f: b[f] for f in what if f != 'stats'}, sort_keys=True)[:260]}",
+                               {"kind": "flow", "settings": FLOW_CONFIGS[q["cfg"]], "step": a["step"], "default": {f: a[f] for f in what},
+                                "variant": {f: b[f] for f in what}, "commands": q["log"]}))
+    if fref is not None:
+        cov["flow_history"] = {"configs": sorted(FLOW_CONFIGS), "steps": [o["step"] for o in fref["obs"]]}
+    cov["evaluations"] += len(fres)
+
+    # ---- sequencer flows in the main work tree and in a linked one
+    sres = C.parallel_map(seq_history, [(ctx.scratch, w) for w in SEQ_WHERE])
+    if any("error" in q for q in sres):
+        for q in sres:
+            if "error" in q:
+                violations.append(("engine error (sequencer flows): " + q["error"][-300:], q))
+    elif sres[0]["obs"] != sres[1]["obs"]:
+        k = next(i for i, (a, b) in enumerate(zip(sres[0]["obs"], sres[1]["obs"])) if a != b)
+        a, b = sres[0]["obs"][k], sres[1]["obs"][k]
+        what = [f for f in ("rc", "notes", "note", "note_prompts", "blame", "stats") if a[f] != b[f]]
+        violations.append((f"{', '.join(what)} after `{a['step']}` differ between the main work tree and a linked work tree: "
+                           f"{json.dumps({f: a[f] for f in what if f != 'stats'}, sort_keys=True)[:300]} vs "
+                           f"{json.dumps({f: b[f] for f in what if f != 'stats'}, sort_keys=True)[:300]}",
+                           {"kind": "sequencer-worktree", "step": a["step"], "main": {f: a[f] for f in what},
+                            "linked": {f: b[f] for f in what}, "commands": sres[1]["log"]}))
+    else:
+        cov["sequencer_flows"] = {"where": SEQ_WHERE, "steps": [o["step"] for o in sres[0]["obs"]],
+                                  "notes_after_cherry_pick": sres[0]["obs"][0]["notes"]}
+    cov["evaluations"] += len(sres)
+
     # ---- diff.renames x an AI-made move + edit and copy + edit inside one commit
     mres = C.parallel_map(mv_history, [(ctx.scratch, c) for c in MV_CONFIGS])
     mref = next((q for q in mres if q.get("cfg") == "default"), None)
@@ -1436,6 +1654,12 @@ def run(ctx):
         if still:
             violations.append((f"regression witness of {REGRESSION_TEXT[name]}", {"kind": "witness", "class": name, "detail": detail}))
 
+    # ---- open known class C12-K5 (fixed witness; generated histories contain no pathspec checkout/reset/stash)
+    still, detail = witness_k5(ctx.scratch)
+    cov.setdefault("known_class_witnesses", {})["C12-K5"] = {"still_fails": still, "detail": str(detail)[:700]}
+    if still:
+        known_seen.add(KNOWN_TEXT["C12-K5"])
+
     cov["evaluations"] += n_var + len(res)
     cov["distinct_nontrivial"] = len(distinct) + len(hist_distinct) + n_norm
     cov["rule"] = ("in-process: argument vectors (exhaustive <=2 over a 41-token alphabet, exhaustive 3 over 17 tokens, all tails <=3 "
@@ -1455,6 +1679,11 @@ def run(ctx):
     }
 
 
+KNOWN_TEXT = {
+    "C12-K5": "C12-K5 pathspec checkout / reset / stash started below the work tree root (or with -C <subdir>): the hooks compare "
+              "the pathspecs as typed with root-relative file names, nothing matches; e.g. after `git checkout -- f.txt` in sub/ "
+              "the discarded agent edit stays in the working log and a person retyping the line is recorded as the agent",
+}
 REGRESSION_TEXT = {
     "C12-K1": "C12-K1 (repaired): `git -c k=v commit` / `--no-pager` / `-C a -C b` / --git-dir --work-tree started below the work "
               "tree root must record the same note as a plain `git commit` from the root",
